@@ -310,6 +310,8 @@ static TransportConfig clientCfg(bool enabled, bool verify, const std::string &a
   if (anchor == "A") cfg.clientTls.caFile = pki.c("caA");
   else if (anchor == "B") cfg.clientTls.caFile = pki.c("caB");
   cfg.clientTls.minVersion = verOf(cmin);
+  // the library's own floor is what is under test, not OpenSSL's security level (which hides TLS 1.0/1.1 by itself)
+  cfg.clientTls.ciphers = "DEFAULT:@SECLEVEL=0";
   return cfg;
 }
 
@@ -365,6 +367,7 @@ static std::string caseServer(std::map<std::string, std::string> a)
   cfg.serverTls.verifyPeer = a["require"] == "1";
   cfg.serverTls.caFile = pki.c("caA");
   cfg.serverTls.minVersion = verOf(a["cmin"]);
+  cfg.serverTls.ciphers = "DEFAULT:@SECLEVEL=0";
   auto tr = Transport::tcp(cfg);
   std::atomic<bool> announced{false}, gotData{false};
   tr->onConnect([&](SessionId, const TransportAddress &) { announced = true; });
